@@ -54,6 +54,7 @@ func (x *explorer) byzMenu(b int, R int32) []int32 {
 		blk := x.honestBlock(p)
 		name := fmt.Sprintf("B%d", p)
 		x.mt.nameBlock(blk.ID(), name)
+		x.mt.namePS(blk.partSet().ID().Hash, name)
 		dup := false
 		for _, v := range vals {
 			if v.name == name {
@@ -75,6 +76,7 @@ func (x *explorer) byzMenu(b int, R int32) []int32 {
 			blk := newFBlock(fBlockHeader{Height: 1, PrevID: env.genesis.ID(), Proposer: w.Address().Bytes(),
 				Timestamp: env.blockTS(b, 1), Tag: "byz" + tag}, env.vl)
 			x.mt.nameBlock(blk.ID(), tag)
+			x.mt.namePS(blk.partSet().ID().Hash, tag)
 			vals = append(vals, val{blk, tag})
 		}
 	}
@@ -173,6 +175,7 @@ func runC01Config(cfg c01Config) *c01Result {
 	x.diffEvery = cfg.DiffEvery
 	for _, p := range correct {
 		x.mt.nameBlock(x.honestBlock(p).ID(), fmt.Sprintf("B%d", p))
+		x.mt.namePS(x.honestBlock(p).partSet().ID().Hash, fmt.Sprintf("B%d", p))
 	}
 	var bag []int32
 	if cfg.Byz >= 0 {
@@ -331,6 +334,7 @@ func TestVerifC01(t *testing.T) {
 		r.Finish(false)
 		return
 	}
+	runBaseSchedules(r)
 	cfgs := c01Configs(r.Thorough())
 	exe, err := os.Executable()
 	if err != nil {
@@ -434,4 +438,200 @@ func tail(s string, n int) string {
 		return s[len(s)-n:]
 	}
 	return s
+}
+
+
+// ---------------------------------------------------------------- base schedule B4: re-lock, crash, amnesia
+//
+// DESIGN.md Appendix A. n = 4, V3 Byzantine, proposers of rounds 0..3 are
+// V1, V2, V3, V0. The schedule is an ordinary sequence of explorer events on
+// real engines; it is a candidate counterexample to C01 and counts only if two
+// real engines call Finalize with different block ids.
+func scenarioRelockAmnesia(withCrash bool, crashAt, crashNode int) (*scenario, *explorer) {
+	env := newCSEnv(4)
+	correct := []int{0, 1, 2}
+	x := newExplorer(env, correct, 3)
+	for _, p := range correct {
+		x.mt.nameBlock(x.honestBlock(p).ID(), fmt.Sprintf("B%d", p))
+		x.mt.namePS(x.honestBlock(p).partSet().ID().Hash, fmt.Sprintf("B%d", p))
+	}
+	x.byzMenu(3, 3)
+	sc := newScenario(x, 3, crashAt, crashNode)
+	any := -2
+	pv := func(to, signer int, r int32, blk string) { sc.send(to, msgPred{"prevote", signer, r, blk}) }
+	pc := func(to, signer int, r int32, blk string) { sc.send(to, msgPred{"precommit", signer, r, blk}) }
+	_ = any
+	// --- round 0: V1 proposes B1
+	sc.pump(1)
+	for _, to := range []int{0, 2} {
+		sc.send(to, msgPred{"proposal", 1, 0, "B1"})
+		sc.send(to, msgPred{"part", -2, 0, "B1"})
+	}
+	sc.send(1, msgPred{"part", -2, 0, "B1"})
+	// prevotes: V0 sees V0,V1,V3(B1) -> polka -> locks B1@0 and precommits B1
+	pv(0, 1, 0, "B1")
+	pv(0, 3, 0, "B1")
+	// V1 and V2 see B1,B1,nil(V3): +2/3 without polka -> wait -> timeout -> precommit nil
+	pv(1, 2, 0, "B1")
+	pv(1, 3, 0, "nil")
+	pv(2, 1, 0, "B1")
+	pv(2, 3, 0, "nil")
+	sc.timeout(1)
+	sc.timeout(2)
+	// precommits of round 0: V0:B1, V1:nil, V2:nil, V3:nil -> everybody moves to round 1
+	for _, to := range []int{0, 1, 2} {
+		for _, s := range []int{1, 2} {
+			pc(to, s, 0, "nil")
+		}
+		pc(to, 3, 0, "nil")
+	}
+	// --- round 1: V2 proposes B2; V1,V2,V3 prevote B2 (a polka B2@1 exists), nobody is shown it
+	sc.pump(2)
+	for _, to := range []int{0, 1} {
+		sc.send(to, msgPred{"proposal", 2, 1, "B2"})
+		sc.send(to, msgPred{"part", -2, 0, "B2"})
+	}
+	sc.send(2, msgPred{"part", -2, 0, "B2"})
+	sc.timeout(0) // V0 is locked on B1: propose timeout -> prevote B1
+	pv(1, 2, 1, "B2")
+	pv(1, 0, 1, "B1")
+	pv(2, 1, 1, "B2")
+	pv(2, 0, 1, "B1")
+	pv(0, 1, 1, "B2")
+	pv(0, 2, 1, "B2")
+	for _, i := range []int{0, 1, 2} {
+		sc.timeout(i) // prevote-wait timeout -> precommit nil
+	}
+	for _, to := range []int{0, 1, 2} {
+		for _, s := range []int{0, 1, 2} {
+			pc(to, s, 1, "nil")
+		}
+	}
+	// --- round 2: V3 (Byzantine) re-proposes B1 with POL round 0 and shows the round-0 polka
+	for _, to := range []int{1, 2} {
+		pv(to, 0, 0, "B1")
+		pv(to, 1, 0, "B1")
+		pv(to, 2, 0, "B1")
+		pv(to, 3, 0, "B1")
+		sc.send(to, msgPred{"part", -2, 0, "B1"})
+		sc.send(to, msgPred{"proposal", 3, 2, "B1"})
+	}
+	sc.timeout(0) // V0 (locked B1@0) prevotes B1 after the propose timeout
+	// polka B1@2 is shown to V0 and V1
+	pv(0, 1, 2, "B1")
+	pv(0, 2, 2, "B1")
+	pv(1, 0, 2, "B1")
+	pv(1, 2, 2, "B1")
+	// V2 is shown B1, B1, nil: no polka -> precommit nil
+	pv(2, 0, 2, "B1")
+	pv(2, 3, 2, "nil")
+	sc.timeout(2)
+	// V1 gets precommits B1 from V0, V1(own), V3 -> finalizes B1
+	pc(1, 0, 2, "B1")
+	pc(1, 3, 2, "B1")
+	// --- V0 crashes and restarts: its lock WAL only knows the lock of round 0
+	if withCrash {
+		sc.crash(0)
+	}
+	// the round-1 polka for B2 is delivered to V0 now
+	pv(0, 1, 1, "B2")
+	pv(0, 2, 1, "B2")
+	pv(0, 3, 1, "B2")
+	// V0 is shown precommits of round 2: own B1, nil, nil -> wait -> timeout -> round 3
+	pc(0, 2, 2, "nil")
+	pc(0, 3, 2, "nil")
+	sc.timeout(0)
+	// V2 also moves to round 3
+	pc(2, 0, 2, "B1")
+	pc(2, 3, 2, "nil")
+	sc.timeout(2)
+	// --- round 3: V0 is proposer; if it is unlocked it proposes a fresh block
+	sc.pump(0)
+	sc.send(2, msgPred{"proposal", 0, 3, ""})
+	sc.send(2, msgPred{"part", -2, 0, "B0"})
+	sc.send(0, msgPred{"part", -2, 0, "B0"})
+	pv(0, 2, 3, "B0")
+	pv(2, 0, 3, "B0")
+	pv(0, 3, 3, "B0")
+	pv(2, 3, 3, "B0")
+	pc(0, 2, 3, "B0")
+	pc(2, 0, 3, "B0")
+	pc(0, 3, 3, "B0")
+	pc(2, 3, 3, "B0")
+	return sc, x
+}
+
+func TestVerifC01Scenario(t *testing.T) {
+	for _, crash := range []bool{false, true} {
+		sc, _ := scenarioRelockAmnesia(crash, 0, 0)
+		fins, distinct := sc.result()
+		fmt.Printf("=== relock scenario withCrash=%v: finalized=%v distinct=%d steps=%d\n", crash, fins, distinct, sc.stepNo)
+		if os.Getenv("VERIF_DEBUG") != "" {
+			for _, l := range sc.log {
+				fmt.Println("  ", l)
+			}
+		}
+	}
+}
+
+// runBaseSchedules executes the directed base schedules on real engines: B4 as
+// designed (crash of V0 after its re-lock), B4 without crash, and B4 with one
+// crash+restart of each correct node inserted before each of its steps.
+func runBaseSchedules(r *ev.Run) {
+	type variant struct {
+		name              string
+		withCrash         bool
+		crashAt, crashNode int
+	}
+	base, _ := scenarioRelockAmnesia(false, 0, 0)
+	steps := base.stepNo
+	vs := []variant{{"B4-relock-nocrash", false, 0, 0}, {"B4-relock-crashV0-after-relock", true, 0, 0}}
+	for node := 0; node < 3; node++ {
+		for at := 1; at <= steps; at++ {
+			vs = append(vs, variant{fmt.Sprintf("B4-relock-crashV%d-before-step%d", node, at), false, at, node})
+		}
+	}
+	outcomes := map[string]int{}
+	for _, v := range vs {
+		if r.Expired() {
+			return
+		}
+		sc, _ := scenarioRelockAmnesia(v.withCrash, v.crashAt, v.crashNode)
+		r.Eval(len(sc.trace))
+		r.Traces(1)
+		r.Add("base_schedule_runs", 1)
+		fins, _ := sc.result()
+		key := ""
+		for _, i := range []int{0, 1, 2} {
+			if f, ok := fins[i]; ok {
+				key += fmt.Sprintf("V%d=%s ", i, sc.x.mt.blockName(unhex(f)))
+			}
+		}
+		outcomes[key]++
+		r.Nontrivial("base/" + v.name + "/" + key)
+		sig, detail := sc.verdict()
+		if sig == "" {
+			continue
+		}
+		// confirm on fresh engines from the wire-level trace only
+		ok := true
+		for k := 0; k < 5; k++ {
+			f2, p2, c2 := replayTrace(newCSEnv(4), []int{0, 1, 2}, sc.trace, nil)
+			if !violationHolds(sig, f2, p2, c2) {
+				ok = false
+			}
+		}
+		if !ok {
+			fmt.Printf("HARNESS-ERROR property=C01 base schedule %s: violation %s did not reproduce\n", v.name, sig)
+			r.Cap("non-reproducing violation in base schedule " + v.name)
+			continue
+		}
+		var lines []string
+		for _, l := range sc.log {
+			lines = append(lines, l)
+		}
+		r.Violation(sig, detail+"\nbase schedule "+v.name+" (V3 Byzantine)\n"+strings.Join(lines, "\n"),
+			map[string]interface{}{"config": c01Config{Name: v.name, Byz: 3, R: 3}, "trace": sc.trace, "sig": sig})
+	}
+	r.Set("base_schedule_outcomes", outcomes)
 }
